@@ -46,9 +46,11 @@ impl<'a> DocGen<'a> {
             1 => format!("[[{}|{}]]", dest, text),
             2 => format!("[{}]({} \"{}\")", text, dest, self.word()),
             3 => format!("[*{}*]({})", text, dest),
-            4 => match self.rng.below(5) {
+            4 => match self.rng.below(6) {
                 0 => format!("[{}](<{}>)", text, dest),
                 1 => format!("[{}]( {} )", text, dest),
+                // the destination may start the next line
+                5 => format!("[{}](\n{})", text, dest),
                 2 => format!("[**{}** `{}`]({})", text, self.word(), dest),
                 3 => format!("[![{}](img/{}.png) {}]({})", self.word(), self.n, text, dest),
                 _ => format!("[{} \\[x\\]]({})", text, dest),
@@ -212,7 +214,7 @@ fn dest_span(text: &str, l: &mdscan::LinkOcc) -> Option<(usize, usize)> {
     let mut found = None;
     for (i, _) in src.match_indices("](") {
         let mut open = i + 2;
-        while src[open..].starts_with(' ') || src[open..].starts_with('<') {
+        while src[open..].starts_with(' ') || src[open..].starts_with('<') || src[open..].starts_with('\n') || src[open..].starts_with('\r') {
             open += 1;
         }
         let rest = &src[open..];
